@@ -9,7 +9,7 @@
 #
 from collections.abc import Callable, Iterator, Iterable
 from copy import copy
-from typing import Any, Optional, Union
+from typing import Any, Optional, TypeVar, Union
 
 from elementpath import SchemaElementNode, build_schema_node_tree
 
@@ -28,6 +28,8 @@ from .xsdbase import XsdComponent
 
 from .particles import ParticleMixin
 from . import elements
+
+WT = TypeVar('WT', bound='XsdWildcard')
 
 
 class XsdWildcard(XsdComponent):
@@ -211,6 +213,18 @@ class XsdWildcard(XsdComponent):
     def _has_occurs_restriction(self, other: 'XsdWildcard') -> bool:
         return True
 
+    def _relative_to_self(self, other: WT) -> WT:
+        """
+        A '##other' constraint excludes the target namespace of the schema where it's
+        declared: if it differs from the one of this wildcard returns an equivalent
+        wildcard that doesn't depend on the target namespace.
+        """
+        if '##other' in other.namespace and other.target_namespace != self.target_namespace:
+            other = copy(other)
+            other.namespace = set()
+            other.not_namespace = {'', other.target_namespace}
+        return other
+
     @schema_cache
     def is_restriction(self, other: Union[ModelParticleType, 'XsdAnyAttribute'],
                        check_occurs: bool = True) -> bool:
@@ -220,6 +234,7 @@ class XsdWildcard(XsdComponent):
             return False
 
         assert isinstance(other, XsdWildcard)
+        other = self._relative_to_self(other)
         if other.process_contents == 'strict' and self.process_contents != 'strict':
             return False
         elif other.process_contents == 'lax' and self.process_contents == 'skip':
@@ -251,7 +266,7 @@ class XsdWildcard(XsdComponent):
             if '##any' in self.namespace:
                 return False
             elif '##other' in self.namespace:
-                return other.not_namespace.issubset(('', other.target_namespace))
+                return other.not_namespace.issubset(('', self.target_namespace))
             else:
                 return all(ns not in other.not_namespace for ns in self.namespace)
 
@@ -268,6 +283,8 @@ class XsdWildcard(XsdComponent):
 
     def union(self, other: Union['XsdAnyElement', 'XsdAnyAttribute']) -> None:
         """Update an XSD wildcard with the union of itself and another XSD wildcard."""
+        other = self._relative_to_self(other)
+
         # A name is disallowed by the union only if it's not admitted by both wildcards
         self.not_qname = {
             x for x in self.not_qname
@@ -341,6 +358,8 @@ class XsdWildcard(XsdComponent):
 
     def intersection(self, other: Union['XsdAnyElement', 'XsdAnyAttribute']) -> None:
         """Update an XSD wildcard with the intersection of itself and another XSD wildcard."""
+        other = self._relative_to_self(other)
+
         if self.not_qname:
             self.not_qname.update(other.not_qname)
         else:
@@ -368,7 +387,7 @@ class XsdWildcard(XsdComponent):
             else:
                 self.not_namespace = other.not_namespace.copy()
                 self.not_namespace.add('')
-                self.not_namespace.add(other.target_namespace)
+                self.not_namespace.add(self.target_namespace)
                 self.namespace.clear()
             return
 
@@ -382,7 +401,7 @@ class XsdWildcard(XsdComponent):
         elif '##other' in self.namespace:
             self.namespace.clear()
             self.namespace.update(other.namespace)
-            self.namespace.discard(other.target_namespace)
+            self.namespace.discard(self.target_namespace)
             self.namespace.discard('')
         elif '##other' not in other.namespace:
             self.namespace.intersection_update(other.namespace)
